@@ -5,7 +5,7 @@
                                      lists: comma-joined names (- = None, h<hex>); range = R:i,j,... or X:<class>
                                   |  EP:<class> (parsing raised) | EC:<class> (class_of raised) | U (unmodelled)
      Y <src>                      the symbols (name|TYPE|lags|leads) -> O:...;... | EP:<class> | U
-     B <src> <opts> <0|1> <conv>  build_def, conv in default code wrap count empty
+     B <src> <opts> <0|1> <conv>  build_def, conv in default code wrap count count@<n0> empty broken fields
                                   -> O:<hex text>|<final converter state> | EP: | EC: | EF:<class> (fill failed) | U
      X <text-hex>                 exec_M (the class tuple a generated text denotes)
                                   -> O:<endo>|<exo>|<params>|<errors>|<LAGS>|<LEADS>|<block-hex> | N
@@ -121,7 +121,12 @@ let answer (line : string) : unit =
             | "wrap" -> unit_conv conv_wrap
             | "empty" -> unit_conv conv_empty
             | "broken" -> unit_conv conv_broken
+            | "fields" -> unit_conv conv_fields
             | "count" -> let (st, r) = build_def conv_count O syms opts hints in fin (int_of_nat st, r)
+            | c when String.length c > 6 && String.sub c 0 6 = "count@" ->
+              (* the counting converter continued from an earlier build: initial state after @ *)
+              let n0 = int_of_string (String.sub c 6 (String.length c - 6)) in
+              let (st, r) = build_def conv_count (nat_of_int n0) syms opts hints in fin (int_of_nat st, r)
             | _ -> failwith "conv"))
   | ["X"; h] ->
     print_endline (match exec_M (unhex h) with
